@@ -4,6 +4,8 @@
 // a real BoundedReader/BoundedWriter so that the wrapped object's call log and
 // position are observable.
 #include <limits>
+#include <ostream>
+#include <streambuf>
 
 #include "ops.h"
 
@@ -18,6 +20,32 @@ static void EmitSize(JsonOut& o, const char* key, uint64_t n) {
   o.key(key);
   if (n < (1ull << 31)) o.num(static_cast<long long>(n));
   else o.num(-static_cast<long long>(0ull - n));  // Huge(d) = 2^64 - d is logged as -d
+}
+
+// Accessors of the library classes (size / capacity / remaining / empty), logged after every call when the class
+// has them; the instrumented DynReader / DynWriter are not library classes and are not reported.
+template <typename T, typename = void> struct HasCapacity : std::false_type {};
+template <typename T> struct HasCapacity<T, decltype(void(std::declval<const T&>().capacity()))> : std::true_type {};
+template <typename T, typename = void> struct HasRemaining : std::false_type {};
+template <typename T> struct HasRemaining<T, decltype(void(std::declval<const T&>().remaining()))> : std::true_type {};
+template <typename T, typename = void> struct HasEmpty : std::false_type {};
+template <typename T> struct HasEmpty<T, decltype(void(std::declval<const T&>().empty()))> : std::true_type {};
+template <typename T> static void EmitCap(const T& t, JsonOut& o, std::true_type) { EmitSize(o, "cap", t.capacity()); }
+template <typename T> static void EmitCap(const T&, JsonOut&, std::false_type) {}
+template <typename T> static void EmitRem(const T& t, JsonOut& o, std::true_type) { EmitSize(o, "rem", t.remaining()); }
+template <typename T> static void EmitRem(const T&, JsonOut&, std::false_type) {}
+template <typename T> static void EmitEmp(const T& t, JsonOut& o, std::true_type) { o.kv_bool("emp", t.empty()); }
+template <typename T> static void EmitEmp(const T&, JsonOut&, std::false_type) {}
+template <typename T>
+static void EmitAccessors(const T& t, JsonOut& o) {
+  if (std::is_same<T, DynReader>::value || std::is_same<T, DynWriter>::value) return;
+  if (!HasCapacity<T>::value && !HasRemaining<T>::value && !HasEmpty<T>::value) return;
+  o.key("acc");
+  o.begin_obj();
+  EmitCap(t, o, HasCapacity<T>{});
+  EmitRem(t, o, HasRemaining<T>{});
+  EmitEmp(t, o, HasEmpty<T>{});
+  o.end_obj();
 }
 
 template <typename R>
@@ -90,6 +118,7 @@ static void RunReaderOps(R& r, DynReader* inner, const Json& ops, JsonOut& o) {
     o.kv_num("st", Code(st));
     if (st && (op == "r1" || op == "rn")) { o.key("out"); o.bytes(buf.data(), buf.size()); }
     if (kBounded) o.kv_num("idx", PadCaller<kBounded>::size(r));
+    EmitAccessors(r, o);
     if (inner) {
       EmitN(o, "ipos", inner->pos());
       o.key("icalls");
@@ -227,6 +256,7 @@ struct WriterRunner {
         else if (op == "skipw") written += n;
       }
       if (kHasSize) { o.kv_num("size", size(w, std::integral_constant<bool, kHasSize>{})); if (op == "padw" && st) written = static_cast<uint64_t>(size(w, std::integral_constant<bool, kHasSize>{})); }
+      EmitAccessors(w, o);
       if (inner) {
         EmitN(o, "ipos", inner->pos());
         o.key("icalls");
@@ -238,6 +268,29 @@ struct WriterRunner {
     o.end_arr();
   }
 };
+
+struct LimBuf : std::streambuf {
+  std::vector<uint8_t> got;
+  size_t cap = 0;
+  int_type overflow(int_type ch) override {
+    if (traits_type::eq_int_type(ch, traits_type::eof())) return traits_type::not_eof(ch);
+    if (got.size() >= cap) return traits_type::eof();
+    got.push_back(static_cast<uint8_t>(traits_type::to_char_type(ch)));
+    return ch;
+  }
+  std::streamsize xsputn(const char* p, std::streamsize n) override {
+    const size_t room = cap - got.size();
+    const size_t take = static_cast<size_t>(n) < room ? static_cast<size_t>(n) : room;
+    got.insert(got.end(), reinterpret_cast<const uint8_t*>(p), reinterpret_cast<const uint8_t*>(p) + take);
+    return static_cast<std::streamsize>(take);
+  }
+};
+struct LimStream : std::ostream {
+  static size_t cap_for_next;
+  LimBuf buf;
+  LimStream() : std::ostream(nullptr) { buf.cap = cap_for_next; rdbuf(&buf); }
+};
+size_t LimStream::cap_for_next = 0;
 
 static void IoWriter(const Json& cmd, JsonOut& o) {
   const std::string kind = cmd.at("kind").s;
@@ -308,6 +361,18 @@ static void IoWriter(const Json& cmd, JsonOut& o) {
     else WriterRunner<SW, true, false, false>::run(w, nullptr, ops, o, false, cap);
     std::string s = w.stream().str();
     out.assign(s.begin(), s.end());
+  } else if (kind == "lstream") {
+    // StreamWriter over an output stream whose buffer accepts exactly |cap| bytes (the stream goes bad after that)
+    LimStream::cap_for_next = static_cast<size_t>(cap);
+    nop::StreamWriter<LimStream> w;
+    if (bounded) { nop::BoundedWriter<nop::StreamWriter<LimStream>> b(&w, static_cast<size_t>(limit)); WriterRunner<decltype(b), true, true, true>::run(b, nullptr, ops, o, false, cap); }
+    else WriterRunner<nop::StreamWriter<LimStream>, true, false, false>::run(w, nullptr, ops, o, false, cap);
+    out = w.stream().buf.got;
+  } else if (kind == "fdfull") {
+    // FdWriter on a descriptor that accepts nothing (write() fails with ENOSPC)
+    nop::FdWriter w(::open("/dev/full", O_WRONLY));
+    if (bounded) { nop::BoundedWriter<nop::FdWriter> b(&w, static_cast<size_t>(limit)); WriterRunner<decltype(b), false, false, true>::run(b, nullptr, ops, o, false, cap); }
+    else WriterRunner<nop::FdWriter, false, false, false>::run(w, nullptr, ops, o, false, cap);
   } else if (kind == "fd") {
     std::string path = TempPath("iowfd");
     {
